@@ -13,17 +13,18 @@ Theorem C03_run_app : forall sb a b t l,
 Proof. exact run_app. Qed.
 Print Assumptions C03_run_app.
 
-(* two calls: for ALL byte strings a, b (valid or not), all well-formed parser states, all
-   flag settings without UTF-8 validation: when the call on a reports that more input is
-   needed, the call on b yields the same value, status and error code as the single call
-   on a ++ b, with the end position counted from the start of a.  (With VALIDATE_UTF8 the
-   statement holds for splits on character boundaries only: the continuation counter is a
-   call-local and a call that ends inside a multi-byte character reports a UTF-8 error
-   instead of asking for more input — see C03_utf8_split_first_call_errors.) *)
+(* two calls: for ALL byte strings a, b (valid or not), all well-formed parser states, ALL
+   flag settings (strict, allow-trailing, VALIDATE_UTF8): when the call on a reports that
+   more input is needed, the call on b yields the same value, status and error code as the
+   single call on a ++ b, with the end position counted from the start of a.  (With
+   VALIDATE_UTF8 the premise itself fails for a split inside a multi-byte character: the
+   continuation counter is a call-local and such a call reports a UTF-8 error instead of
+   asking for more input — see C03_utf8_split_first_call_errors; whenever the first call
+   does ask for more input the counter is 0 and the theorem applies.) *)
 Theorem C03_chunk_independent : forall sb t a b ta ra,
-  wf_tok t -> validate_utf8 t = false ->
+  wf_tok t ->
   parse_ex sb t a = PR ta ra -> err ta = TE_continue ->
-  ra = None /\ wf_tok ta /\ validate_utf8 ta = false /\
+  ra = None /\ wf_tok ta /\ validate_utf8 ta = validate_utf8 t /\
   exists tw ts r, parse_ex sb t (a ++ b) = PR tw r /\ parse_ex sb ta b = PR ts r /\
                   err tw = err ts /\ char_offset tw = zlen a + char_offset ts.
 Proof. exact chunk_independent. Qed.
@@ -31,7 +32,7 @@ Print Assumptions C03_chunk_independent.
 
 (* any number of calls, by induction on the list of chunks *)
 Theorem C03_chunks_independent : forall sb pre t tk last,
-  wf_tok t -> validate_utf8 t = false -> feed sb t pre = Some tk ->
+  wf_tok t -> feed sb t pre = Some tk ->
   exists tw ts r, parse_ex sb t (concat pre ++ last) = PR tw r /\ parse_ex sb tk last = PR ts r /\
                   err tw = err ts /\ char_offset tw = zlen (concat pre) + char_offset ts.
 Proof. exact chunks_independent. Qed.
@@ -62,3 +63,12 @@ Theorem C03_nonvacuous :
   exists t tk, tok_new 32 false false false = Some t /\ feed (fun _ => 0) t [[91;49;50];[51;44;32;52]] = Some tk /\
     match parse_ex (fun _ => 0) tk [53;93] with PR t' (Some v) => v = JArr [JInt 123; JInt 45] /\ err t' = TE_success | _ => False end.
 Proof. eexists _, _. split; [reflexivity|]. split; [vm_compute; reflexivity|]. vm_compute. split; reflexivity. Qed.
+Print Assumptions C03_nonvacuous.
+
+(* non-vacuity under VALIDATE_UTF8 (+ strict): "\"é" then "x\"" — a split after a complete
+   two-byte character asks for more input, and the second call completes the string *)
+Theorem C03_nonvacuous_utf8 :
+  exists t tk, tok_new 32 true false true = Some t /\ feed (fun _ => 0) t [[34;195;169]] = Some tk /\
+    match parse_ex (fun _ => 0) tk [120;34] with PR t' (Some v) => v = JStr [195;169;120] /\ err t' = TE_success | _ => False end.
+Proof. eexists _, _. split; [reflexivity|]. split; [vm_compute; reflexivity|]. vm_compute. split; reflexivity. Qed.
+Print Assumptions C03_nonvacuous_utf8.
